@@ -486,7 +486,8 @@ class Checker:
         cls = "other"
         bdims, adims = before[0], tuple(str(d) for d in ent[1].nodes.dims)
         lost_one = len(adims) == len(bdims) - 1 and all(d in bdims for d in adims)
-        if role == "operand" and (kind == "bin" or (kind == "join" and st[2] == "match")) and kinds <= {"coord-values"}:
+        if role == "operand" and (kind == "bin" or (kind == "join" and st[2] == "match")) \
+                and kinds <= {"coord-values", "coord-keys", "coord-dims"}:
             cls = "join-mutates-operand"
         elif role == "subject" and kind in ("concatenate", "stack") and not st[2] and lost_one and "elements" not in kinds \
                 and st[1] < len(bdims) and before[1][st[1]] == 1 and bdims[st[1]] not in adims:
